@@ -23,7 +23,10 @@ RULE = ('cross-sections: tables 2-5 T x 2-5 P x 1-6 wn (1e-40..1e-18 m2, some ze
         'CIA: pickle .db and HITRAN .cia (single range; per-temperature disjoint ranges with gaps; negative entries). '
         'k-tables: pickle and HDF5 (1-4 g-points). cache: 8-40 op histories over 2-3 directories (one missing) with '
         'pickle/HDF5/Exo files of 3 molecules + a missing one; k-table cache and CIA cache (get / set path, single or list / '
-        'add; per directory and pair: no container / .db / .cia / both / several) histories alike. distinct non-trivial = distinct (kind, format/unit, '
+        'add; per directory and pair: no container / .db / .cia / both / several) histories alike; the histories include '
+        'configuration by other routes (a parameter file set up with ParameterParser.read + setup_globals carrying path / '
+        'xsec_interpolation / xsec_in_memory) and settings taken back (set_interpolation(None), the path key of GlobalCache set '
+        'to None); collision partners (pairOne, pairTwo) of every loaded CIA object. distinct non-trivial = distinct (kind, format/unit, '
         'shape, region / history signature) with a non-constant table')
 ASSUMPTIONS = ['pickle / h5py / text I/O return the numbers that were written (containers trusted; files are really '
                'written and really read by the repo loaders)',
@@ -1115,6 +1118,17 @@ def eval_cia(ctx, c):
                               dict(expected=pair, got=o.pairName))
             if o is not cc[pair]:
                 ctx.violation('served-different-object:' + fmt, 'two consecutive gets return different objects', full)
+            # the collision partners the loaded object reports (what CIAContribution weights the table with): the two halves
+            # of the pair name, whichever container the table came from (Sanitize.pairOne/pairTwo; Props/C14.lean: cia_partners)
+            dp = ctx.model().call('c14.partners', C.S(pair))
+            partners = (str(o.pairOne), str(o.pairTwo))
+            ctx.bucket('cia:partners:' + fmt)
+            ctx.check_eq('CIA pairOne/pairTwo of the loaded %s object vs Sanitize.pairOne/pairTwo' % fmt, partners,
+                         (dp.str(), dp.str()), dict(small, fmt=fmt, pair=pair))
+            if partners != (pair.split('-')[0], pair.split('-')[-1]):
+                ctx.violation('partners:' + fmt, 'the table loaded from the %s container of %s is attributed to the collision '
+                              'partners %r' % (fmt, pair, partners), full,
+                              dict(fmt=fmt, pairName=o.pairName, pairOne=partners[0], pairTwo=partners[1]))
             grids = (flat(o.wavenumberGrid), flat(o.temperatureGrid), np.asarray(o._xsec_grid, float))
             bad = None
             for nm, got, want in (('wavenumberGrid', grids[0], uni['wn']), ('temperatureGrid', grids[1], uni['t']),
@@ -1297,17 +1311,35 @@ def gen_kcache_case(rng, k):
     ops = [['setPath', int(rng.integers(0, ndirs))]] if rng.random() < 0.8 else []
     for _ in range(int(rng.integers(6, 30))):
         r = rng.random()
-        if r < 0.55:
+        if r < 0.5:
             ops.append(['get', CACHE_MOLS[int(rng.integers(0, 3))] if rng.random() < 0.9 else 'XX'])
-        elif r < 0.67:
+        elif r < 0.6:
             ops.append(['setPath', int(rng.integers(0, ndirs + (1 if rng.random() < 0.1 else 0)))])
-        elif r < 0.8:
+        elif r < 0.7:
             ops.append(['setInterp', int(rng.integers(0, 2))])
-        elif r < 0.9:
+        elif r < 0.78:
             ops.append(['clear'])
-        else:
+        elif r < 0.86:
             ops.append(['add', CACHE_MOLS[int(rng.integers(0, 3))] if rng.random() < 0.8 else 'XX', int(rng.integers(0, 2))])
+        else:
+            ops.append(gen_conf_op(rng, ndirs, mem=False))
     return dict(kind='kcache', fs=fs, ops=ops)
+
+
+def gen_conf_op(rng, ndirs, mem=True):
+    """a configuration event that reaches the caches by another route than their own setters, or takes a setting back:
+    ['unsetInterp'] (set_interpolation(None)), ['unsetPath'] (the path key of GlobalCache set to None), ['parfile', p, k, mem]
+    (a parameter file with the [Global] keys path / xsec_interpolation / xsec_in_memory, each optional, set up by
+    ParameterParser.read + setup_globals; the memory key, whose setter clears the cache by itself, only in a quarter)"""
+    r = rng.random()
+    if r < 0.25:
+        return ['unsetInterp']
+    if r < 0.45:
+        return ['unsetPath']
+    pth = None if rng.random() < 0.25 else int(rng.integers(0, ndirs + (1 if rng.random() < 0.08 else 0)))
+    k = None if rng.random() < 0.2 else int(rng.integers(0, 2))
+    m = bool(rng.random() < 0.5) if (mem and rng.random() < 0.25) else None
+    return ['parfile', pth, k, m]
 
 
 def gen_cache_case(rng, k):
@@ -1350,19 +1382,21 @@ def gen_cache_case(rng, k):
     ops = [['setPath', int(rng.integers(0, ndirs))]] if rng.random() < 0.8 else []
     for _ in range(nops):
         r = rng.random()
-        if r < 0.55:
+        if r < 0.5:
             m = CACHE_MOLS[int(rng.integers(0, 3))] if rng.random() < 0.9 else 'XX'
             ops.append(['get', m])
-        elif r < 0.67:
+        elif r < 0.6:
             ops.append(['setPath', int(rng.integers(0, ndirs + (1 if rng.random() < 0.1 else 0)))])
-        elif r < 0.77:
+        elif r < 0.68:
             ops.append(['setInterp', int(rng.integers(0, 2))])
-        elif r < 0.82:
+        elif r < 0.72:
             ops.append(['setMem', bool(rng.random() < 0.5)])
-        elif r < 0.9:
+        elif r < 0.79:
             ops.append(['clear'])
-        else:
+        elif r < 0.87:
             ops.append(['add', CACHE_MOLS[int(rng.integers(0, 3))] if rng.random() < 0.8 else 'XX', int(rng.integers(0, 2))])
+        else:
+            ops.append(gen_conf_op(rng, ndirs))
     return dict(kind='cache', fs=fs, ops=ops)
 
 
@@ -1409,8 +1443,10 @@ def eval_cache(ctx, c):
                 fid += 1
         dirs.append(os.path.join(root, 'never_created'))
         toks.append(str(len(ops)))
+        def opt(v):
+            return ['0'] if v is None else ['1', str(int(v))]
         for o in ops:
-            code = ['get', 'setPath', 'setInterp', 'setMem', 'clear', 'add'].index(o[0])
+            code = ['get', 'setPath', 'setInterp', 'setMem', 'clear', 'add', 'unsetInterp', 'unsetPath', 'parfile'].index(o[0])
             toks.append(str(code))
             if o[0] in ('get',):
                 toks.append(C.S(o[1]))
@@ -1420,7 +1456,10 @@ def eval_cache(ctx, c):
                 toks.append('1' if o[1] else '0')
             elif o[0] == 'add':
                 toks += [C.S(o[1]), str(int(o[2]))]
-        dm = ctx.model().call('c14.kcache' if isk else 'c14.cache', *toks)     # CacheSM.stepK / CacheSM.step
+            elif o[0] == 'parfile':
+                toks += opt(o[1]) + opt(o[2]) + opt(o[3])
+        # CacheConf.stepXK / stepX (the cache's own operations: CacheSM.stepK / CacheSM.step)
+        dm = ctx.model().call('c14.kcache' if isk else 'c14.cache', *toks)
 
         def rd_step():
             code = dm.nat()
@@ -1472,6 +1511,40 @@ def eval_cache(ctx, c):
             elif o[0] == 'setInterp':
                 OpacityCache().set_interpolation(MODES[o[1]])
                 cur_interp = o[1]
+            elif o[0] == 'unsetInterp':
+                # the setting taken back to "not configured" (documented default: linear)
+                if oc.opacity_dict:
+                    ctx.bucket(tag + ':mode-change:unset:dict-nonempty')
+                OpacityCache().set_interpolation(None)
+                cur_interp = None
+            elif o[0] == 'unsetPath':
+                GlobalCache()[pathkey] = None
+                cur_path = None
+            elif o[0] == 'parfile':
+                # the same settings arriving through a parameter file (ParameterParser.read + setup_globals)
+                from taurex.parameter import ParameterParser
+                lines = ['[Global]']
+                if o[1] is not None:
+                    lines.append('%s = %s' % (pathkey, dirs[o[1]] if o[1] < len(dirs) else dirs[-1]))
+                if o[2] is not None:
+                    lines.append('xsec_interpolation = %s' % MODES[o[2]])
+                if o[3] is not None:
+                    lines.append('xsec_in_memory = %s' % bool(o[3]))
+                pf = os.path.join(root, 'setup_%d.par' % n)
+                with open(pf, 'w') as fh:
+                    fh.write('\n'.join(lines) + '\n')
+                if o[2] is not None and oc.opacity_dict and o[3] is None:
+                    ctx.bucket(tag + ':mode-change:parfile:dict-nonempty')
+                pp = ParameterParser()
+                pp.read(pf)
+                if o[1] is not None:
+                    cur_path = dirs[o[1]] if o[1] < len(dirs) else dirs[-1]
+                try:
+                    pp.setup_globals()
+                    if o[2] is not None:
+                        cur_interp = o[2]
+                except NotADirectoryError:
+                    r = dict(code=3)
             elif o[0] == 'setMem':
                 OpacityCache().set_memory_mode(bool(o[1]))
             elif o[0] == 'clear':
@@ -1496,8 +1569,10 @@ def eval_cache(ctx, c):
                          dict(cs, fs=fs, ops=ops[:n + 1]))
             sig.append(o[0][0] + str(r['code']))
             # ---- the property's own predicates on the implementation
-            if o[0] in ('setInterp', 'setMem', 'clear'):
+            if o[0] in ('setInterp', 'setMem', 'clear', 'unsetInterp') or \
+                    (o[0] == 'parfile' and r['code'] == 2 and (o[2] is not None or (o[3] is not None and not isk))):
                 segment, seg_loads = {}, {}
+            ctx.bucket(tag + ':op:' + o[0])
             if o[0] == 'get':
                 seg_loads[o[1]] = seg_loads.get(o[1], 0) + len(new_loads)
                 if seg_loads[o[1]] > 1:
@@ -1764,6 +1839,10 @@ def eval_ciacache(ctx, c):
                     if obj.pairName != o[1]:
                         ctx.violation('cia-served-wrong-pair', 'CIA object served under a different pair name', full,
                                       dict(step=n, asked=o[1], got=obj.pairName))
+                    elif (obj.pairOne, obj.pairTwo) != (o[1].split('-')[0], o[1].split('-')[-1]):
+                        ctx.violation('cia-cache-partners', 'the object served for a pair reports other collision partners '
+                                      'than the halves of its pair name', full,
+                                      dict(step=n, pair=o[1], pairOne=obj.pairOne, pairTwo=obj.pairTwo))
                     fn = getattr(obj, '_filename', None)
                     if fn in file_ids:
                         T = 260.0
